@@ -4,9 +4,11 @@
 
 mod absgraph;
 mod c01;
+mod c02;
 mod c03;
 mod c04;
 mod c06;
+mod c14;
 mod ids;
 mod programs;
 mod util;
@@ -21,10 +23,13 @@ fn main() {
             0
         }
         "c01" => c01::run(&rest),
+        "c02" => c02::run(&rest),
+        "c02-race" => c02::run_race(&rest),
         "c03" => c03::run(&rest),
         "c03-keys" => c03::run_keys(&rest),
         "c04" => c04::run(&rest),
         "c06" => c06::run(&rest),
+        "c14-attr" => c14::run(&rest),
         _ => {
             eprintln!("usage: echo-verif <ids|c04|...> args");
             2
